@@ -761,7 +761,72 @@ func (c *c13) Run(cs core.Case) core.Result {
 			os.Remove(pth)
 			r.Key("%s|dangling|%s", p.Fmt, rel)
 		}
-		r.Sample(map[string]interface{}{"format": p.Fmt, "family": "subsets", "files": h.names[:n], "subsets": 1<<uint(n) - 1, "dangling_links": len(rels)})
+		// One decoder object that outlives a change of the directory: it loads,
+		// files or recovery files are deleted / damaged / come back, it loads
+		// again - its counts must be those of a fresh Verify.
+		var volNames []string
+		for _, nme := range h.names {
+			if _, isData := h.data[nme]; !isData && nme != filepath.Base(h.idx) {
+				volNames = append(volNames, nme)
+			}
+		}
+		write13 := func(rel string, b []byte) { os.WriteFile(filepath.Join(h.dir, rel), b, 0644) }
+		muts := map[string]func(){
+			"all recovery files deleted": func() {
+				for _, v := range volNames {
+					os.Remove(filepath.Join(h.dir, v))
+				}
+			},
+			"first recovery file deleted": func() {
+				if len(volNames) > 0 {
+					os.Remove(filepath.Join(h.dir, volNames[0]))
+				}
+			},
+			"a data file deleted": func() { os.Remove(filepath.Join(h.dir, rels[0])) },
+			"a data file damaged": func() {
+				b := append([]byte(nil), h.data[rels[len(rels)-1]]...)
+				if len(b) > 0 {
+					b[len(b)/2] ^= 0x08
+				}
+				write13(rels[len(rels)-1], b)
+			},
+		}
+		var mnames []string
+		for k := range muts {
+			mnames = append(mnames, k)
+		}
+		sort.Strings(mnames)
+		for _, mn := range mnames {
+			h.restore()
+			if p.Fmt == "par2" {
+				p2DecoderReload(r, "par2: "+mn+" between two loads of one Decoder", h.idx, 2, muts[mn])
+			} else {
+				p1DecoderReload(r, "par1: "+mn+" between two loads of one Decoder", h.idx, muts[mn])
+			}
+			// and the other way round: damaged first, whole again before the reload
+			h.restore()
+			muts[mn]()
+			if p.Fmt == "par2" {
+				p2DecoderReload(r, "par2: ("+mn+") undone between two loads of one Decoder", h.idx, 2, h.restore)
+			} else {
+				p1DecoderReload(r, "par1: ("+mn+") undone between two loads of one Decoder", h.idx, h.restore)
+			}
+			r.Key("%s|decoder-reload|%s", p.Fmt, mn)
+		}
+		// a write that fails, then the same object is asked again
+		for _, rel := range rels {
+			if len(h.data[rel]) == 0 {
+				continue
+			}
+			if p.Fmt == "par2" && (len(h.data[rel])+h.set.SliceSize-1)/h.set.SliceSize > h.set.Blocks {
+				continue
+			}
+			h.restore()
+			decoderRetryAfterFailedWrite(r, p.Fmt, h.idx, filepath.Join(h.dir, rel), h.data[rel], h.root)
+			r.Key("%s|decoder-retry|%s", p.Fmt, rel)
+		}
+		h.restore()
+		r.Sample(map[string]interface{}{"format": p.Fmt, "family": "subsets", "files": h.names[:n], "subsets": 1<<uint(n) - 1, "dangling_links": len(rels), "decoder_reload_mutations": mnames})
 	case "crash-points":
 		// The write sequence of Create, in order: for every prefix, the
 		// last written file is torn.
